@@ -16,6 +16,9 @@
 (* before the genuine reply or the deadline - before (sfirst) or after the  *)
 (* earlier replies of the same exchange; at most two extra datagrams per    *)
 (* exchange (the second one ends the call).                                 *)
+(* The server answers each request in an NTP header state hdr ("sync", or   *)
+(* unsynchronised: "li3" / "str0" / "str16"; chosen per exchange from        *)
+(* HdrStates, only where the request is going to reach the server).          *)
 (* `stat` counts, on the specification's side, how often a behaviour        *)
 (* exercises these dimensions (vacuity guards of the checks).               *)
 (*   Exhaustive = FALSE (tlc -simulate): one random decision per step,     *)
@@ -29,13 +32,13 @@
 (*   Exhaustive = TRUE (breadth-first): all schedules of MaxEx exchanges.  *)
 (***************************************************************************)
 EXTENDS NtsCookies, Json, FiniteSets
-CONSTANTS Exhaustive, Biases, TickPct, ProbePct, StalePct, ExInj, ScmpPct, ExScmp
+CONSTANTS Exhaustive, Biases, TickPct, ProbePct, StalePct, ExInj, ScmpPct, ExScmp, HdrPct
 VARIABLES hist, bias, plan, stat, kex
 gvars == <<vars, hist, bias, plan, stat, kex>>
 
 Pick(S) == RandomElement(S)
 Drops == {"none", "req", "resp"}
-NoPlan == [drop |-> "none", pre |-> 0, post |-> 0, src |-> 0, scmp |-> 0, sfirst |-> FALSE, styp |-> "none"]
+NoPlan == [drop |-> "none", pre |-> 0, post |-> 0, src |-> 0, scmp |-> 0, sfirst |-> FALSE, styp |-> "none", hdr |-> "sync"]
 Stat0 == [same |-> 0,     \* earlier replies of the current association handed to the waiting client ...
           before |-> 0,   \* ... of these: while the genuine reply was on its way, which the client then got
           dup |-> 0,      \* ... of these: replies the client had received before (else: replies that had been lost)
@@ -54,7 +57,16 @@ Stat0 == [same |-> 0,     \* earlier replies of the current association handed t
           scmpbefore |-> 0, \* ... of these: while the genuine reply was on its way, which the client then got
           scmpinstead |-> 0,\* ... of these: when nothing genuine was on its way (request or reply lost, no reply)
           scmpmixed |-> 0,  \* ... of these: in an exchange in which an earlier reply was handed over as well
-          scmpsecond |-> 0] \* ... of these: deliveries that ended the call (retry already spent)
+          scmpsecond |-> 0, \* ... of these: deliveries that ended the call (retry already spent)
+          unsync |-> 0,      \* authentic replies of an unsynchronised server taken in by the client (cookies stored, call refused) ...
+          unclean |-> 0,     \* ... of these: in a history without any loss so far (the pool must be back at eight)
+          unrun |-> 0,       \* ... of these: directly after another one (runs of such replies)
+          unthen |-> 0,      \* successful exchanges directly after one (mixed with normal ones)
+          unlow |-> 0,       \* ... of these (unsync): answering a request that carried placeholders (pool below eight before)
+          unlost |-> 0,      \* replies of an unsynchronised server that were lost or not taken in (earlier datagrams spent the retries)
+          unli3 |-> 0, unstr0 |-> 0, unstr16 |-> 0,   \* (unsync by header state)
+          unscion |-> 0,     \* (unsync taken in by the SCION client)
+          lastun |-> 0]
 
 TickChoices ==
   LET avail == {d \in Ticks : now + d <= Horizon}
@@ -96,6 +108,13 @@ ScmpChoices(k, npre) ==
        ELSE {IF npre < 2 /\ Pick(1 .. 100) <= ScmpPct
              THEN <<Pick(1 .. (2 - npre)), npre = 0 \/ Pick(BOOLEAN), Pick(ScmpTypes)>>
              ELSE <<0, FALSE, "none">>}
+\* the NTP header state of the server's answer (only where the request is not lost)
+Unsynced == HdrStates \ {"sync"}
+\* (exhaustive: in the exchanges in which the network delivers nothing else)
+HdrChoices(k, dr, plain) ==
+  IF dr = "req" \/ Unsynced = {} THEN {"sync"}
+  ELSE IF Exhaustive THEN (IF plain /\ dr = "none" THEN HdrStates ELSE {"sync"})
+  ELSE {IF Pick(1 .. 100) <= HdrPct THEN Pick(Unsynced) ELSE "sync"}
 SrcChoices(k) == IF NOld = 0 THEN {0} ELSE IF Exhaustive THEN {1} ELSE {Pick(1 .. NOld)}   \* (exhaustive: the newest one)
 \* the src-th newest reply to an earlier request
 NStale == Cardinality({i \in DOMAIN old : IsStale(i)})
@@ -106,7 +125,7 @@ Finished == nex = MaxEx /\ phase = "idle" /\ plan.post = 0
 
 Op(op, d, n, u, kb, pl) ==
   [op |-> op, d |-> d, n |-> n, u |-> u, kb |-> kb, drop |-> pl.drop, pre |-> pl.pre, post |-> pl.post, src |-> pl.src,
-   scmp |-> pl.scmp, sfirst |-> pl.sfirst, styp |-> pl.styp]
+   scmp |-> pl.scmp, sfirst |-> pl.sfirst, styp |-> pl.styp, hdr |-> pl.hdr]
 
 GIdle ==
   \E t \in TickChoices :
@@ -124,16 +143,16 @@ GIdle ==
              /\ stat' = [stat EXCEPT !.oldprobe = @ + (IF rep'.k = "probe" /\ rep'.ck # prov'.cur THEN 1 ELSE 0)]
              /\ UNCHANGED <<plan, kex>>
       ELSE \E dr \in DropChoices(Len(pool)), inj \in InjChoices(nex), sr \in SrcChoices(nex) :
-           \E sc \in ScmpChoices(nex, inj[1]) :
+           \E sc \in ScmpChoices(nex, inj[1]) : \E hd \in HdrChoices(nex, dr, inj = <<0, 0>> /\ sc[1] = 0) :
              /\ SendRequest
              /\ plan' = [drop |-> dr, pre |-> inj[1], post |-> inj[2], src |-> IF inj = <<0, 0>> THEN 0 ELSE sr,
-                         scmp |-> sc[1], sfirst |-> sc[2], styp |-> sc[3]]
+                         scmp |-> sc[1], sfirst |-> sc[2], styp |-> sc[3], hdr |-> hd]
              /\ hist' = Append(hist, Op("x", 0, 0, 0, 0, plan'))
              /\ stat' = [stat EXCEPT !.sx = @ + (IF tr = "scion" /\ obs' = "send" THEN 1 ELSE 0)]
              /\ UNCHANGED kex
 
 GServe ==
-  /\ ServerHandle
+  /\ ServerHandle(plan.hdr)
   /\ stat' = IF obs' # "serve" THEN stat
              ELSE LET sp == prov'.cur - kex IN
                   [stat EXCEPT !.oldserve = @ + (IF net.cookie.key # prov'.cur THEN 1 ELSE 0),
@@ -176,7 +195,20 @@ GNext ==
      \/ phase \in {"resp", "wait"} /\ ~ScmpNext /\ plan.pre > 0 /\ GReplay /\ UNCHANGED <<hist, kex>>
      \/ /\ phase = "resp" /\ plan.pre = 0 /\ plan.scmp = 0
         /\ (IF plan.drop = "resp" THEN LoseResponse ELSE ClientReceive)
-        /\ stat' = [stat EXCEPT !.sxstore = @ + (IF tr = "scion" /\ obs' = "store" THEN 1 ELSE 0)]
+        /\ LET un == obs' = "fail" /\ ~rep.bad /\ ~Synced(rep.hdr)     \* taken in, stored, refused
+               B(x) == IF x THEN 1 ELSE 0
+           IN stat' = [stat EXCEPT !.sxstore = @ + B(tr = "scion" /\ obs' = "store"),
+                                   !.unsync = @ + B(un),
+                                   !.unclean = @ + B(un /\ clean),
+                                   !.unrun = @ + B(un /\ stat.lastun = 1),
+                                   !.unthen = @ + B(obs' = "store" /\ stat.lastun = 1),
+                                   !.unlow = @ + B(un /\ pre < PoolMax),
+                                   !.unlost = @ + B(obs' = "loseresp" /\ ~Synced(rep.hdr)),
+                                   !.unli3 = @ + B(un /\ rep.hdr = "li3"),
+                                   !.unstr0 = @ + B(un /\ rep.hdr = "str0"),
+                                   !.unstr16 = @ + B(un /\ rep.hdr = "str16"),
+                                   !.unscion = @ + B(un /\ tr = "scion"),
+                                   !.lastun = B(un)]
         /\ UNCHANGED <<hist, plan, kex>>
      \/ phase = "wait" /\ plan.pre = 0 /\ plan.scmp = 0 /\ Timeout /\ UNCHANGED <<hist, plan, stat, kex>>
 
@@ -209,5 +241,10 @@ ScmpNone == {}
 ScmpX    == {0, 1}
 ScmpX2   == {0, 1, 2}
 ScmpX0   == {0}
+HdrAll   == {"sync", "li3", "str0", "str16"}
+HdrSync  == {"sync"}
+HdrLi    == {"sync", "li3"}
+HdrStr0  == {"sync", "str0"}
+HdrStr16 == {"sync", "str16"}
 InjX     == {<<0, 0>>, <<1, 0>>}
 =============================================================================
